@@ -197,6 +197,30 @@ func c19Check(c c19Case) error {
 			return fmt.Errorf("after measuring passes on discarded dry-run clones: GetLabel(%q) = ($%06x,%v), never measured ($%06x,%v)", n, v1, ok1, v2, ok2)
 		}
 	}
+	// the base address given again later (to the same value), then more code: the two kinds of emitter keep agreeing
+	{
+		withBuf, without := asm.NewEmitter(make([]byte, total+8), false), asm.NewEmitter(nil, false)
+		for _, o := range c.Ops {
+			asmcat.ApplyReal(withBuf, o)
+			asmcat.ApplyReal(without, o)
+		}
+		b0 := withBuf.GetBase()
+		for _, em := range []*asm.Emitter{withBuf, without} {
+			em := em
+			_ = rig.Safe(func() error {
+				em.SetBase(b0)
+				em.NOP()
+				em.Label("probe after the second SetBase")
+				em.NOP()
+				return nil
+			})
+		}
+		l1, ok1 := withBuf.GetLabel("probe after the second SetBase")
+		l2, ok2 := without.GetLabel("probe after the second SetBase")
+		if withBuf.PC() != without.PC() || l1 != l2 || ok1 != ok2 {
+			return fmt.Errorf("after the history, SetBase($%06x) again, NOP, Label, NOP: an emitter with a buffer is at $%06x (label $%06x,%v), one without at $%06x (label $%06x,%v)", b0, withBuf.PC(), l1, ok1, without.PC(), l2, ok2)
+		}
+	}
 	e1, e2 := direct.Finalize(), par.Finalize()
 	if (e1 == nil) != (e2 == nil) || e1 == nil && !bytes.Equal(direct.Bytes(), par.Bytes()) { // (a failing Finalize patches whichever references it came to first)
 		return fmt.Errorf("after measuring passes on discarded dry-run clones Finalize returns %v (never measured: %v), first differing byte %d", e2, e1, firstDiff(direct.Bytes(), par.Bytes()))
@@ -221,10 +245,22 @@ func init() {
 func TestC19(t *testing.T) {
 	rig.Main(t, "C19", "rapid: an emitter history (instructions incl. wrong-width immediates, data, labels, references, base, assumptions) x a capacity solved to end exactly at, or 1-3 bytes inside, "+
 		"a drawn instruction or data block (also 0 and the full size): every call must be accepted iff it fits, a refused call must leave bytes, length, PC and labels unchanged, Len <= Cap always; in a third of the cases some of the calls before the capacity edge are emitted into a Clone and appended; "+
-		"the same history on an emitter without a target must report the same PC, label addresses and flags after every call as an emitter with a large buffer, with Len() == 0; the tail of the history is also measured twice on discarded Clone(nil) copies of the emitter that holds the head and then emitted for real on it.  "+
+		"the same history on an emitter without a target must report the same PC, label addresses and flags after every call as an emitter with a large buffer, with Len() == 0; the tail of the history is also measured twice on discarded Clone(nil) copies of the emitter that holds the head and then emitted for real on it; targets of exactly 64 KiB, 32 KiB, 65535 and 256 bytes are filled to the last byte; after every history both kinds of emitter get the same base address again and go on.  "+
 		"Non-trivial = at least one call was refused for capacity; distinct = hash(case).",
 		func(r *rig.Run) {
 			ev := r.Ev
+			// a target of exactly one 64 KiB bank filled to its last byte (and one of a page), then one byte too many
+			if rig.Shard() == 0 {
+				for _, size := range []int{65536, 256, 65535, 32768} {
+					for _, listing := range []bool{false, true} {
+						c := c19Case{Listing: listing, Cap: size, Ops: []asmcat.Op{{Kind: "data", V: uint32(size - 1), Seed: 9}, {Kind: "ins", Method: "NOP"},
+							{Kind: "ins", Method: "NOP"}, {Kind: "label", Label: "l0"}, {Kind: "data", V: 1, Seed: 3}, {Kind: "ins", Method: "RTS"}}}
+						r.CheckSweep("rapid", c, func() error { return c19Check(c) })
+						ev.Case(true, rig.Hash64("full-bank", size, listing), func() interface{} { return c })
+						ev.Class("target-of-exactly-64KiB-or-a-page-filled-to-its-last-byte")
+					}
+				}
+			}
 			r.Rapid("rapid", rig.Pick(40000, 150000), func(t *rapid.T) {
 				c := c19Case{Listing: rapid.IntRange(0, 3).Draw(t, "listing") == 0}
 				c.Ops = asmcat.GenHistory(t, asmcat.GenOpts{MaxOps: rig.Pick(30, 80), Labels: true, Data: true, Comments: true, SetBase: true, Assume: true, BadGuard: true})
